@@ -28,6 +28,10 @@ rule("C20.g", "order book: the rows of the orders are collected by init-or-appen
 rule("C07.r", "init-or-append inside a loop: an accumulator defined before the loop is re-initialised only under a condition that "
               "implies it is still empty", floor=0)
 
+rule("C01.j", "a report column that is accumulated with += inside a loop over mapping rows is reset unconditionally right before that "
+              "loop, in every pass that selects the rows: a pass that selects the same rows again (an asset listing one node twice) "
+              "must not add them a second time", floor=2)
+
 VAR = ("c", "l", "u")
 ROW = ("A", "b", "cType")
 
@@ -188,6 +192,47 @@ def _accumulators(ctx):
                                "(their variables keep costs and bounds but lose their mapping rows / restrictions)" % (
                                    nm, au.short(s.value, 40), au.short(iff.test, 80)), node=iff,
                                ok_detail="re-initialised only while empty (%s)" % au.short(iff.test, 60))
+    # ---------------------------------------------------------------- C01.i accumulate after an unconditional reset
+    n_i = 0
+    for fn in sorted(p.all_functions(), key=lambda f: f.qualname):
+        if fn.parent is not None or fn.module.name != "io":
+            continue
+        for lp in [s for s in au.walk_stmts(fn.body) if isinstance(s, ast.For)]:
+            for st in lp.body:
+                if not (isinstance(st, ast.AugAssign) and isinstance(st.op, ast.Add) and isinstance(st.target, ast.Subscript)):
+                    continue
+                t = st.target
+                # frame.loc[row, COL] += v   /   frame[COL] += v
+                frame, col = None, None
+                if isinstance(t.value, ast.Attribute) and t.value.attr == "loc" and isinstance(t.slice, ast.Tuple) and len(t.slice.elts) == 2:
+                    frame, col = t.value.value, t.slice.elts[1]
+                elif isinstance(t.value, ast.Name):
+                    frame, col = t.value, t.slice
+                if frame is None or not isinstance(col, ast.Name):
+                    continue
+                # the block that contains the accumulating loop
+                par = p.parent(lp)
+                blk = next((b for b in (getattr(par, "body", None), getattr(par, "orelse", None)) if b and any(x is lp for x in b)), None)
+                if blk is None:
+                    continue
+                n_i += 1
+                before = blk[:[i for i, x in enumerate(blk) if x is lp][0]]
+                resets = [x for x in before if isinstance(x, ast.Assign) and any(isinstance(tt, ast.Subscript) and au.U(tt.value) == au.U(frame)
+                                                                                 and au.U(tt.slice) == col.id for tt in x.targets)]
+                guarded = [x for x in before if isinstance(x, ast.If) and any(
+                    isinstance(y, ast.Assign) and any(isinstance(tt, ast.Subscript) and au.U(tt.value) == au.U(frame) and au.U(tt.slice) == col.id for tt in y.targets)
+                    for y in au.walk_stmts(x.body + x.orelse))]
+                # the column name must not be re-bound between the reset and the loop
+                ok = bool(resets) and not any(isinstance(x, ast.Assign) and any(isinstance(tt, ast.Name) and tt.id == col.id for tt in x.targets)
+                                              for x in before[[i for i, y in enumerate(before) if y is resets[-1]][0]:])
+                ctx.ob("C01.j", fn, "%s[%s] accumulated over mapping rows" % (au.U(frame), col.id), ok,
+                       "the column is accumulated with += over the selected mapping rows but %s: when a pass selects rows that an earlier "
+                       "pass already added (an asset that lists the same node in two slots - storage [power, power], a plant with own "
+                       "consumption) they are added a second time and the reported dispatch at the node no longer nets to zero" % (
+                           "is reset only under a condition (`%s`)" % au.short(guarded[0].test, 50) if guarded else "is not reset right before the loop"),
+                       node=(guarded[0] if guarded else st), ok_detail="reset by `%s`" % (au.short(resets[-1], 40) if resets else ""))
+    ctx.require(n_i >= 2, "fewer than 2 accumulated report columns found in io")
+
     # anchor: the order book collects its rows in a loop; if it never re-initialises the collection there is nothing to judge
     ob = p.fn_opt("OrderBook.setup_optim_problem")
     ctx.require(ob is not None, "OrderBook.setup_optim_problem vanished")
@@ -201,7 +246,7 @@ def _accumulators(ctx):
     return n
 
 
-@analysis("lockstep", ["C07.c", "C07.d", "C20.g", "C07.r"])
+@analysis("lockstep", ["C07.c", "C07.d", "C20.g", "C07.r", "C01.j"])
 def run(ctx):
     p = ctx.p
     n_var = n_row = 0
